@@ -196,7 +196,9 @@ class GeneInterval(AbstractFeatureIntervalCollection):
         """Wrapper function used by both :func:`GeneInterval.get_merged_transcript`
         and :func:`GeneInterval.get_merged_cds`.
         """
-        merged = reduce(lambda x, y: x.union(y), intervals)
+        # the merged feature takes the strand of this collection; children may lie on either strand
+        strand = self.chunk_relative_location.strand
+        merged = reduce(lambda x, y: x.union(y), (i.reset_strand(strand) for i in intervals))
         interval_starts = [x.start for x in merged.blocks]
         interval_ends = [x.end for x in merged.blocks]
 
